@@ -116,7 +116,11 @@ class Model:
         """ref = 'amaranth/x/y.py::Class.method[.nested]'"""
         rel, _, qual = ref.partition("::")
         m = self.mod(rel)
+        want_setter = qual.endswith("@setter")
+        qual = qual[:-len("@setter")] if want_setter else qual
         cands = [n for n in m._index.get(qual, []) if isinstance(n, kinds)]
+        if want_setter:
+            cands = [n for n in cands if any(isinstance(d, ast.Attribute) and d.attr == "setter" for d in getattr(n, "decorator_list", []))]
         real = [n for n in cands if not any((isinstance(d, ast.Attribute) and d.attr == "overload") or
                                             (isinstance(d, ast.Name) and d.id == "overload")
                                             for d in getattr(n, "decorator_list", []))]
